@@ -47,12 +47,16 @@ class Unsupported(Exception):
 
 def build(spec, hashes=None, chashes=None, fresh_strings=False, plain=False):
     """Construct a BaseProject from a spec.  `hashes[i]` = hash of task i (default i)."""
-    S = (lambda s: "".join(list(s))) if fresh_strings else (lambda s: s)
+    S = (lambda s: "".join(list(s)) if isinstance(s, str) else s) if fresh_strings else (lambda s: s)
     # spec["id_seed"]: ID strings are numbered by a permutation instead of by position, so that their
     # string order differs from the list order (the simulator must not depend on what IDs look like)
     _perm = {}
 
     def ID(kind, k):
+        if spec.get("id_scheme") == "int0":
+            return k          # plain integers numbered from 0 per kind: a falsy ID, and the same ID for objects of different kinds
+        if spec.get("id_scheme") == "str0":
+            return "%d" % k   # the same as strings ("0", "1", ...: equal IDs across kinds, none falsy)
         if spec.get("id_seed") is None:
             return "%s%d" % (kind, k)
         if kind not in _perm:
